@@ -55,6 +55,10 @@ type Conn struct {
 	// ReadSizes are the sizes successive Reads return at most (0 = as much as fits); when exhausted: as much as fits.
 	ReadSizes []int
 	readIdx   int
+	// Transients are stream offsets (bytes read so far) at which ONE Read fails with a timeout error although the
+	// stream goes on afterwards (ascending).
+	Transients []int
+	consumed   int
 	// WriteFaults by index of the client's Write call.
 	WriteFaults map[int]WriteFault
 
@@ -190,6 +194,9 @@ func (n *Net) readReady(t *Task) bool {
 	if c.clientClosed || t.req.n == 0 || len(c.inbox) > 0 {
 		return true
 	}
+	if len(c.Transients) > 0 && c.Transients[0] <= c.consumed {
+		return true
+	}
 	switch c.term {
 	case TermNone:
 		return false
@@ -226,10 +233,20 @@ func (n *Net) grantRead(t *Task) string {
 		return "0 (zero-length buffer)"
 	}
 	t.zeroReads = 0
+	if len(c.Transients) > 0 && c.Transients[0] <= c.consumed {
+		// a transient failure: this one Read fails, the stream goes on afterwards
+		c.Transients = c.Transients[1:]
+		t.resp.err = ErrIOTimeout
+		n.s.Fault("read-transient-error")
+		return "transient timeout"
+	}
 	if len(c.inbox) > 0 {
 		k := len(c.inbox)
 		if t.req.n < k {
 			k = t.req.n
+		}
+		if len(c.Transients) > 0 && c.consumed+k > c.Transients[0] {
+			k = c.Transients[0] - c.consumed
 		}
 		if c.readIdx < len(c.ReadSizes) {
 			if sz := c.ReadSizes[c.readIdx]; sz > 0 && sz < k {
@@ -239,6 +256,7 @@ func (n *Net) grantRead(t *Task) string {
 		}
 		copyNoRace(t.req.buf, c.inbox, k)
 		c.inbox = c.inbox[k:]
+		c.consumed += k
 		t.resp.n = k
 		raceReleaseMerge(ioSyncAddr())
 		if len(c.inbox) == 0 && c.term == TermEOF && c.termWithData {
